@@ -306,15 +306,58 @@ fn real_tftopl(bytes: &[u8]) -> Result<String, String> {
 /// `pltotf`'s conversion step; every warning is then rendered the way the binary prints it
 /// (separately caught, so that a panic while printing does not hide the bytes from the
 /// remaining checks). Returns the bytes, the number of warnings and the first message panic.
-fn real_pltotf(text: &str) -> (Vec<u8>, usize, Option<String>) {
+fn real_pltotf(text: &str) -> (Vec<u8>, usize, Vec<(String, String)>) {
     let (bytes, warnings) = tfm::algorithms::pl_to_tfm(text);
-    let mut msg_panic = None;
-    for w in &warnings {
+    // every distinct panic while printing, with the signature of the *defect*: for the
+    // `todo!("unhandled {kind:?}")` of `ParseWarningKind::data` (known finding C10-f) the kind
+    // that has no message text is part of the signature, so that any other kind that starts
+    // to hit the same line is a different, unknown failure
+    let mut msg_panics: Vec<(String, String)> = vec![];
+    // Printing one warning scans the source from its start (context line), so printing all
+    // of n warnings is quadratic: beyond MSG_CAP warnings only the first of every kind and an
+    // even sample are printed.
+    const MSG_CAP: usize = 200;
+    let stride = (warnings.len() / MSG_CAP).max(1);
+    let mut kinds_seen: Vec<std::mem::Discriminant<tfm::pl::ParseWarningKind>> = vec![];
+    for (j, w) in warnings.iter().enumerate() {
+        let d = std::mem::discriminant(&w.kind);
+        let first_of_kind = !kinds_seen.contains(&d);
+        if first_of_kind {
+            kinds_seen.push(d);
+        }
+        if !(j < MSG_CAP || j % stride == 0 || first_of_kind) {
+            continue;
+        }
         if let Err(p) = caught(|| w.pltotf_message(text)) {
-            msg_panic.get_or_insert(p);
+            let kind_dbg = format!("{:?}", w.kind);
+            let kind_name: String = kind_dbg.chars().take_while(|c| c.is_alphanumeric()).collect();
+            let sig = match p.split_once("not yet implemented: unhandled ") {
+                Some((_, rest)) if rest.starts_with(&kind_name) => format!("panic {} unhandled {kind_name}", strip_msg(&p)),
+                _ => format!("panic {} (while printing a {kind_name} warning)", strip_msg(&p)),
+            };
+            if !msg_panics.iter().any(|(s, _)| *s == sig) {
+                msg_panics.push((sig, p));
+            }
         }
     }
-    (bytes, warnings.len(), msg_panic)
+    (bytes, warnings.len(), msg_panics)
+}
+
+/// Does the text contain a `KRN` step whose value is at least 16 in absolute value? (The shape
+/// of known finding C10-h: such a kern reaches the `assert!` of `FixWord::to_scaled`.)
+fn has_big_kern(text: &str) -> bool {
+    use tfm::pl::ast::{Ast, LigTable, Root};
+    caught(|| {
+        let (Ast(roots), _) = Ast::from_pl_source_code(text);
+        roots.iter().any(|r| match r {
+            Root::LigTable(b) => b.children.iter().any(|c| match c {
+                LigTable::Kern(v) => (v.right.0 as i64).abs() >= 16 << 20,
+                _ => false,
+            }),
+            _ => false,
+        })
+    })
+    .unwrap_or(false)
 }
 
 /// The counts of a real `tfm::File` that determine its size table (`C10.FileShape`), as the
@@ -1020,10 +1063,18 @@ impl C10 {
             other => {
                 let err = String::from_utf8_lossy(&res.stderr).into_owned();
                 let what = if err.contains("overflowed its stack") { "stack overflow" } else { "abnormal exit" };
+                // known finding C10-i is the overflow beyond 10^5 levels (100 000 levels pass in
+                // this build); an overflow at a smaller depth, or another kind of death, is a
+                // different failure and gets its own signature
+                let sig = if what == "stack overflow" && depth > 100_000 {
+                    "abort: stack overflow on a property list nested deeper than 100000".to_string()
+                } else {
+                    format!("abort: {what} at nesting depth {}0000..", depth / 10_000)
+                };
                 out.fail(
                     Kind::ImplPanic,
                     "pltotf",
-                    format!("abort: {what} on a deeply nested property list"),
+                    sig,
                     format!("the process running pl_to_tfm died ({other:?}, {what}) on a text with {depth} unclosed '(': {}", err.lines().next().unwrap_or("")),
                 );
             }
@@ -1077,25 +1128,27 @@ impl C10 {
             *self.seconds.entry("part:cst".into()).or_insert(0.0) += t0.elapsed().as_secs_f64();
         }
         let (bytes, n_warn) = match caught(|| real_pltotf(text)) {
-            Ok((b, n, None)) => (b, n),
-            Ok((b, n, Some(p))) => {
-                out.tag(format!("{stage}pltotf:panic-in-message"));
-                out.fail(
-                    Kind::ImplPanic,
-                    &format!("{stage}pltotf"),
-                    format!("panic {}", strip_msg(&p)),
-                    format!("pltotf_message panicked after pl_to_tfm returned {} bytes: {p}", b.len()),
-                );
+            Ok((b, n, panics)) => {
+                if !panics.is_empty() {
+                    out.tag(format!("{stage}pltotf:panic-in-message"));
+                }
+                for (sig, p) in panics {
+                    out.fail(Kind::ImplPanic, &format!("{stage}pltotf"), sig, format!("pltotf_message panicked after pl_to_tfm returned {} bytes: {p}", b.len()));
+                }
                 (b, n)
             }
             Err(p) => {
                 out.tag(format!("{stage}pltotf:panic"));
-                out.fail(
-                    Kind::ImplPanic,
-                    &format!("{stage}pltotf"),
-                    format!("panic {}", strip_msg(&p)),
-                    format!("pl_to_tfm panicked on {} characters of text: {p}", text.len()),
-                );
+                // known finding C10-h has a specific shape: the assertion of FixWord::to_scaled
+                // (lib.rs) on a text that contains a KRN of absolute value >= 16. Only then is
+                // its signature emitted; the same assertion on any other text is a different
+                // failure (`panic file:line`).
+                let sig = if p.contains("crates/tfm/src/lib.rs") && p.contains("assertion failed: a == 0 || a == 255") && has_big_kern(text) {
+                    "panic FixWord::to_scaled assertion on a KRN of absolute value >= 16".to_string()
+                } else {
+                    format!("panic {}", strip_msg(&p))
+                };
+                out.fail(Kind::ImplPanic, &format!("{stage}pltotf"), sig, format!("pl_to_tfm panicked on {} characters of text: {p}", text.len()));
                 return;
             }
         };
